@@ -121,23 +121,23 @@ pub use crate::hss::{SigningKey, VerifyingKey};
 
 use core::convert::TryFrom;
 use signature::Error;
-use tinyvec::ArrayVec;
 
 use constants::MAX_HSS_SIGNATURE_LENGTH;
+use util::ByteBuffer;
 
 /**
  * Implementation of [`signature::Signature`].
  */
 #[derive(Debug)]
 pub struct Signature {
-    bytes: ArrayVec<[u8; MAX_HSS_SIGNATURE_LENGTH]>,
+    bytes: ByteBuffer<MAX_HSS_SIGNATURE_LENGTH>,
     #[cfg(feature = "verbose")]
     pub hash_iterations: u32,
 }
 
 impl Signature {
     pub(crate) fn from_bytes_verbose(bytes: &[u8], _hash_iterations: u32) -> Result<Self, Error> {
-        let bytes = ArrayVec::try_from(bytes).map_err(|_| Error::new())?;
+        let bytes = ByteBuffer::try_from(bytes).map_err(|_| Error::new())?;
 
         Ok(Self {
             bytes,
